@@ -46,6 +46,7 @@ MANIFEST = {
     "note": "Trusted: gen/dalvik, gen/dexgen, gen/dexread, ref/cfg.py.  Handler type names are C08's subject.",
 }
 _ME = "checks.c12"
+ALT_TOPICS = ("exc",)
 
 
 def plans(ctx):
@@ -56,6 +57,11 @@ def plans(ctx):
     # the analysis sees them in the order 1, 3, 2 -- every sharing pattern (1,2) (2,3) (1,3) all none occurs
     p.append({"id": "try3-n3-TI", "n": 3, "kinds": "TI", "tries3": ("ttt", "tat")})
     p.append({"id": "try3-n4-T", "n": 4, "kinds": "T", "tries3": ("ttt", "tat")})
+    # container order: every other order of the encoded_catch_handler_list entries (2 handlers: 1, 3 handlers: 5 more)
+    p.append({"id": "hperm-try-n1", "n": 1, "kinds": "PTRXGIKS", "tries": (2, False), "hperms": 2})
+    p.append({"id": "hperm-try-n2", "n": 2, "kinds": "TGIK", "tries": (2, False), "hperms": 2})
+    p.append({"id": "hperm-try3-n4-T", "n": 4, "kinds": "T", "tries3": ("ttt", "tat"), "hperms": 6})
+    p += CC.combo_plans(ctx)
     # no-op history: the same parsed code analysed a second / third time (keys end in :second-analysis)
     p.append({"id": "again-try-n1", "n": 1, "kinds": "PTRXGIKS", "tries": (2, False), "history": ("reanalyse",)})
     p.append({"id": "again-try-n2", "n": 2, "kinds": "TGI", "tries": (2, False), "history": ("reanalyse",)})
